@@ -761,8 +761,8 @@ def _project_choice(e, hist_pops, betas, rank, c):
     p = e["_p"]
     n_src = e["n_src"]
     prov = []
-    sum_ok = bool(p is not None and abs(float(np.sum(p)) - 1.0) < 1e-6)
     tol = 1e-9 if c["dtype"] != "float32" else 5e-4
+    sum_ok = bool(p is not None and abs(float(np.sum(p)) - 1.0) < (1e-6 if c["dtype"] != "float32" else 1e-4))
     if p is not None:
         bl = [0.0] + betas
         for j, pop in enumerate(hist_pops):
